@@ -126,6 +126,7 @@ CHECKS["C15"] = dict(
                 "backend; the oracle is that no mutating backend method is ever reached. Counterexamples are replayed through a real fiber.App.",
     harnesses=[
         dict(name="H15-readonly", entry="s3api.VfReadonly", reach=["returned", "handler-entered"], panic_ok=True, **_CTRL),
+        dict(name="H15-reads", pkgs=["./s3api"], entry="s3api.VfReadonlyReads", redirects="spec/redirects_ctrl.json", reach=["answered"], key_trace=['"route=']),
     ],
     assumptions=["the ACL middleware and route handler are looked up in the registrations the real server constructor (s3api.New, S3ApiRouter.Init) makes on a recording fiber.App model",
                  "fiber/fasthttp request context modelled (zzvfbe): route parameters, query flags, headers, locals as set by the authentication middleware",
